@@ -44,6 +44,26 @@ HARNESSES = {
         "bound": "every u8 (loop-free)",
         "what": "contracts/calendars.vx [K]: chrono's Weekday::try_from(u8) is Ok(Mon..Sun) for 0..=6 and Err otherwise (the week-mask conversion of Cal::new)",
     },
+    "std_i32_abs_signum": {
+        "src": "int_facts.rs", "tier": "K", "timeout": 600, "repo_files": [],
+        "bound": "every i32 (loop-free)",
+        "what": "shim/intspecs.rs [K]: i32::abs (x > MIN) and i32::signum as assumed by the Verus units",
+    },
+    "std_i32_rem_euclid_12": {
+        "src": "int_facts.rs", "tier": "K", "timeout": 600, "repo_files": [],
+        "bound": "every i32, divisor 12 (the only divisor used by the code under contract)",
+        "what": "shim/intspecs.rs [K]: i32::rem_euclid(12) is the mathematical remainder in [0, 12)",
+    },
+    "std_i8_unsigned_abs": {
+        "src": "int_facts.rs", "tier": "K", "timeout": 600, "repo_files": [],
+        "bound": "every i8 (loop-free)",
+        "what": "shim/intspecs.rs [K]: i8::unsigned_abs is |x| (including -128 -> 128)",
+    },
+    "std_i32_try_from_u32": {
+        "src": "int_facts.rs", "tier": "K", "timeout": 600, "repo_files": [],
+        "bound": "every u32 (loop-free)",
+        "what": "shim/intspecs.rs [K]: i32::try_from(u32) is Ok(x) up to i32::MAX and Err above",
+    },
     "row_swap_swaps_exactly_two_rows": {
         "src": "linalg_swaps.rs", "tier": "Kb", "timeout": 1200, "repo_files": ["rust/dual/linalg/linalg_dual.rs", "rust/dual/linalg/mod.rs"],
         "bound": "3x3 arrays of arbitrary i32, every j < k < 3",
